@@ -26,6 +26,8 @@ structure Result where
   why : String := ""
   namesSafe : Bool := false
   portsOK : Bool := false
+  /-- `inFragment (httpsPart s)`: the hypothesis of the SSL theorems of Props/C03Render -/
+  httpsFrag : Bool := false
   /-- outside the known finding C03:duplicate-ssl-server-from-listener-404 -/
   noDupSsl : Bool := false
   equal : Bool := false
@@ -63,7 +65,7 @@ def tie (http : List Dir) (matches_ : List (String × List NjsMatch)) (s : NGF.S
       let k := http.filter fun d => kept.contains (nameS d)
       let srv := k.filter fun d => nameS d == "server" && isSslServer d
       let refs := certRefs http
-      { inFragment := true, namesSafe := Render.namesSafe (allPart fs), portsOK := portsOKT fs, noDupSsl := noDupSsl c,
+      { inFragment := true, namesSafe := Render.namesSafe (allPart fs), portsOK := portsOKT fs, httpsFrag := Pipeline.inFragment (httpsPart fs) && Pipeline.inFragment (httpPart fs), noDupSsl := noDupSsl c,
         equal := x == y, diff := if x == y then "" else firstDiff x y,
         matchesEqual := mx == my, matchesDiff := if mx == my then "" else firstDiff mx my,
         dirs := countD k, sslServers := (srv.filter fun d => !((d.block.getD []).any fun c => nameS c == "ssl_reject_handshake")).length,
